@@ -8,9 +8,20 @@ package data
 //   contract A:  Decode(Encode(x)) == x                                  (into a zero value of the type)
 //   contract B:  y := Decode(Encode(a)); MergePoints(id, DiffPoints(a,b), &y); y == b
 //
+//   contract C:  folding points into a DESCENDANT of a configuration (FindNodeInStruct):
+//                  C1 MergePoints(n, pts, &cfg) == nil and cfg afterwards is cfg with the struct whose
+//                     id is n replaced by what MergePoints(n, pts, &thatStructAlone) makes of it,
+//                     everything else deep-equal to before;
+//                  C2 the same for MergeEdgePoints(n, parentOfN, pts, &cfg); with a wrong parent id
+//                     the call returns an error and cfg is unchanged;
+//                  C3 an id that does not occur in cfg (and "") gives an error and cfg is unchanged.
+//                  Every evaluation is repeated verifC10FoldReps times (FindNodeInStruct ranges over
+//                  a Go map of child slices, so a dependence on the iteration order has to show).
+//
 // evaluated on the real Encode / Decode / DiffPoints / MergePoints / MergeEdgePoints for a family
 // of struct types that covers every supported field kind, over boundary values, and (B) over all
-// ordered pairs of those values.
+// ordered pairs of those values; (C) over configuration types with one, two and three child slices
+// and a grandchild level, every node id in them and a batch alphabet per struct type.
 //
 // Equality rule: reflect.DeepEqual, except that a nil and an empty slice / map are the same value.
 // That is what the library's own tests do (TestDecodeAllTombstonePointArray and TestMergeComplex
@@ -196,6 +207,93 @@ type verifC10Parent struct {
 	Others []verifC10Other `child:"verifC10Other"`
 }
 
+// contract C: configuration types whose descendants are addressed by node id.
+// leaf with node and edge fields
+type verifC10FLeaf struct {
+	ID     string  `node:"id"`
+	Parent string  `node:"parent"`
+	Desc   string  `point:"description"`
+	Value  float64 `point:"value"`
+	Count  int     `point:"count"`
+	On     bool    `point:"on"`
+	Role   string  `edgepoint:"role"`
+	Order  int     `edgepoint:"order"`
+}
+
+// like client.Condition (no edge fields)
+type verifC10FCond struct {
+	ID       string  `node:"id"`
+	Parent   string  `node:"parent"`
+	Desc     string  `point:"description"`
+	CondType string  `point:"conditionType"`
+	MinVal   float64 `point:"minValue"`
+	Active   bool    `point:"active"`
+}
+
+// like client.Action
+type verifC10FAct struct {
+	ID       string  `node:"id"`
+	Parent   string  `node:"parent"`
+	Desc     string  `point:"description"`
+	Action   string  `point:"action"`
+	Val      float64 `point:"value"`
+	Disabled bool    `edgepoint:"disabled"`
+}
+
+// ONE child slice
+type verifC10FOne struct {
+	ID     string          `node:"id"`
+	Parent string          `node:"parent"`
+	Desc   string          `point:"description"`
+	Period int             `point:"period"`
+	Role   string          `edgepoint:"role"`
+	Leaves []verifC10FLeaf `child:"leaf"`
+}
+
+// TWO child slices of different child types
+type verifC10FTwo struct {
+	ID     string          `node:"id"`
+	Parent string          `node:"parent"`
+	Desc   string          `point:"description"`
+	Active bool            `point:"active"`
+	Tomb   bool            `edgepoint:"tombstone"`
+	Conds  []verifC10FCond `child:"condition"`
+	Acts   []verifC10FAct  `child:"action"`
+}
+
+// THREE child slices, two of them of the same child type (the shape of client.Rule)
+type verifC10FRule3 struct {
+	ID           string          `node:"id"`
+	Parent       string          `node:"parent"`
+	Desc         string          `point:"description"`
+	Disabled     bool            `point:"disabled"`
+	Active       bool            `point:"active"`
+	Error        string          `point:"error"`
+	Conds        []verifC10FCond `child:"condition"`
+	Acts         []verifC10FAct  `child:"action"`
+	ActsInactive []verifC10FAct  `child:"actionInactive"`
+}
+
+// a grandchild level: the child struct has two child slices of its own
+type verifC10FGroup struct {
+	ID      string          `node:"id"`
+	Parent  string          `node:"parent"`
+	Desc    string          `point:"description"`
+	Level   float64         `point:"level"`
+	Order   int             `edgepoint:"order"`
+	Members []verifC10FLeaf `child:"leaf"`
+	Conds   []verifC10FCond `child:"condition"`
+}
+
+type verifC10FDeep struct {
+	ID     string           `node:"id"`
+	Parent string           `node:"parent"`
+	Desc   string           `point:"description"`
+	Role   string           `edgepoint:"role"`
+	Groups []verifC10FGroup `child:"group"`
+	Leaves []verifC10FLeaf  `child:"leaf"`
+}
+
 // ---------------------------------------------------------------------------------------------
 // bookkeeping
 
@@ -232,10 +330,41 @@ type verifC10State struct {
 	pairsRun    int
 	valuesA     int
 	types       []string
+	// contract C (fold into a descendant)
+	firstC      int
+	foldEvals   int
+	foldCfgs    int
+	foldTargets int                 // (cfg, node id) pairs addressed by C1
+	foldETarget int                 // (cfg, node id, parent id) triples addressed by C2
+	foldShared  int                 // C1 targets skipped because the id occurs twice in the cfg
+	foldSub     map[string]int      // evaluations per sub-contract
+	foldLoose   map[string]struct{} // (sub-contract, type, configuration, target, batch): reported only
+	foldDist    int
+	foldTypes   []string
+	foldBatches map[string]int
 }
 
 func (st *verifC10State) fail(m verifC10Mismatch) {
 	st.mismatches++
+	st.classes[verifC10Class(m)]++
+	if len(st.first) < 10 {
+		st.first = append(st.first, m)
+	}
+}
+
+// failC: contract C enumerates its configurations from the smallest to the largest, so the first
+// mismatch of a class is its smallest reproducer; only that one is listed (at most 10 classes).
+func (st *verifC10State) failC(m verifC10Mismatch) {
+	st.mismatches++
+	cls := verifC10Class(m)
+	st.classes[cls]++
+	if st.classes[cls] == 1 && st.firstC < 10 {
+		st.firstC++
+		st.first = append(st.first, m)
+	}
+}
+
+func verifC10Class(m verifC10Mismatch) string {
 	cls := []byte(m.Contract + " " + m.Type + ": ")
 	if m.Error == "" {
 		cls = append(cls, "wrong value"...)
@@ -250,10 +379,7 @@ func (st *verifC10State) fail(m verifC10Mismatch) {
 		}
 		cls = append(cls, c)
 	}
-	st.classes[string(cls)]++
-	if len(st.first) < 10 {
-		st.first = append(st.first, m)
-	}
+	return string(cls)
 }
 
 func (st *verifC10State) pick(tname string, i, j int) bool {
@@ -621,6 +747,19 @@ func verifC10Run[T any](st *verifC10State, sp verifC10Spec[T]) {
 	}
 }
 
+func verifC10MapStr(m map[string]int) string {
+	keys := make([]string, 0, len(m))
+	for k := range m {
+		keys = append(keys, k)
+	}
+	sort.Strings(keys)
+	parts := make([]string, len(keys))
+	for i, k := range keys {
+		parts[i] = fmt.Sprintf("%s=%d", k, m[k])
+	}
+	return strings.Join(parts, ", ")
+}
+
 func verifC10Min(a, b int) int {
 	if a < b {
 		return a
@@ -951,6 +1090,536 @@ func verifC10Children(st *verifC10State) {
 }
 
 // ---------------------------------------------------------------------------------------------
+// contract C: folding points into a descendant of a configuration
+
+const verifC10FoldReps = 8
+
+type verifC10FNode struct {
+	path   []int // (field index, element index) pairs from the top struct
+	where  string
+	id     string
+	parent string
+	typ    reflect.Type
+}
+
+// verifC10FWalk lists every struct of the tree under v (the harness's own walk over `child:` fields)
+func verifC10FWalk(v reflect.Value, path []int, where string, out []verifC10FNode) []verifC10FNode {
+	t := v.Type()
+	nd := verifC10FNode{path: append([]int{}, path...), where: where, typ: t}
+	if where == "" {
+		nd.where = "top"
+	}
+	for i := 0; i < t.NumField(); i++ {
+		switch t.Field(i).Tag.Get("node") {
+		case "id":
+			nd.id = v.Field(i).String()
+		case "parent":
+			nd.parent = v.Field(i).String()
+		}
+	}
+	out = append(out, nd)
+	for i := 0; i < t.NumField(); i++ {
+		if t.Field(i).Tag.Get("child") == "" || t.Field(i).Type.Kind() != reflect.Slice {
+			continue
+		}
+		for j := 0; j < v.Field(i).Len(); j++ {
+			out = verifC10FWalk(v.Field(i).Index(j), append(path, i, j), fmt.Sprintf("%s.%s[%d]", where, t.Field(i).Name, j), out)
+		}
+	}
+	return out
+}
+
+func verifC10FResolve(root reflect.Value, path []int) reflect.Value {
+	v := root
+	for k := 0; k+1 < len(path); k += 2 {
+		v = v.Field(path[k]).Index(path[k+1])
+	}
+	return v
+}
+
+// verifC10FClone makes an addressable deep copy (nil stays nil, empty stays empty)
+func verifC10FClone(src reflect.Value) reflect.Value {
+	dst := reflect.New(src.Type()).Elem()
+	verifC10FCopy(dst, src)
+	return dst
+}
+
+func verifC10FCopy(dst, src reflect.Value) {
+	switch src.Kind() {
+	case reflect.Struct:
+		for i := 0; i < src.NumField(); i++ {
+			verifC10FCopy(dst.Field(i), src.Field(i))
+		}
+	case reflect.Slice:
+		if src.IsNil() {
+			return
+		}
+		dst.Set(reflect.MakeSlice(src.Type(), src.Len(), src.Len()))
+		for i := 0; i < src.Len(); i++ {
+			verifC10FCopy(dst.Index(i), src.Index(i))
+		}
+	case reflect.Array:
+		for i := 0; i < src.Len(); i++ {
+			verifC10FCopy(dst.Index(i), src.Index(i))
+		}
+	case reflect.Pointer:
+		if src.IsNil() {
+			return
+		}
+		dst.Set(reflect.New(src.Type().Elem()))
+		verifC10FCopy(dst.Elem(), src.Elem())
+	case reflect.Map:
+		if src.IsNil() {
+			return
+		}
+		dst.Set(reflect.MakeMapWithSize(src.Type(), src.Len()))
+		it := src.MapRange()
+		for it.Next() {
+			dst.SetMapIndex(it.Key(), verifC10FClone(it.Value()))
+		}
+	default:
+		dst.Set(src)
+	}
+}
+
+type verifC10FSet struct {
+	field int
+	val   reflect.Value
+}
+
+type verifC10FBatch struct {
+	name string
+	pts  []Point
+	set  []verifC10FSet // what the batch means, written down independently of Decode
+}
+
+// verifC10FBatches: the batch alphabet of a struct type for tag `point` or `edgepoint`: for every
+// declared bool / int / float64 / string field a new value (key "0"), a second value (key ""; the
+// zero value for bool and string) and a tombstone; all fields at once; first field new + last field
+// tombstone; the empty batch; a point of an undeclared type.
+func verifC10FBatches(t reflect.Type, tag string) []verifC10FBatch {
+	var out []verifC10FBatch
+	var all verifC10FBatch
+	all.name = "all fields new"
+	var firstNew, lastTomb *verifC10FBatch
+	for i := 0; i < t.NumField(); i++ {
+		sf := t.Field(i)
+		typ := sf.Tag.Get(tag)
+		if typ == "" {
+			continue
+		}
+		var p1, p2 Point
+		var v1, v2 any
+		switch sf.Type.Kind() {
+		case reflect.String:
+			txt := "new " + typ + " ✓"
+			p1, v1 = Point{Type: typ, Key: "0", Text: txt}, txt
+			p2, v2 = Point{Type: typ, Value: 5}, ""
+		case reflect.Bool:
+			p1, v1 = Point{Type: typ, Key: "0", Value: 1}, true
+			p2, v2 = Point{Type: typ, Text: "true"}, false
+		case reflect.Int:
+			p1, v1 = Point{Type: typ, Key: "0", Value: 7}, 7
+			p2, v2 = Point{Type: typ, Value: -3}, -3
+		case reflect.Float64:
+			p1, v1 = Point{Type: typ, Key: "0", Value: 7.5}, 7.5
+			p2, v2 = Point{Type: typ, Value: -0.25}, -0.25
+		default:
+			continue
+		}
+		tomb := Point{Type: typ, Key: "0", Value: 9, Text: "gone", Tombstone: 1}
+		s1 := verifC10FSet{i, reflect.ValueOf(v1)}
+		s2 := verifC10FSet{i, reflect.ValueOf(v2)}
+		s0 := verifC10FSet{i, reflect.Zero(sf.Type)}
+		out = append(out,
+			verifC10FBatch{name: typ + " new", pts: []Point{p1}, set: []verifC10FSet{s1}},
+			verifC10FBatch{name: typ + " second value", pts: []Point{p2}, set: []verifC10FSet{s2}},
+			verifC10FBatch{name: typ + " tombstone", pts: []Point{tomb}, set: []verifC10FSet{s0}})
+		all.pts = append(all.pts, p1)
+		all.set = append(all.set, s1)
+		if firstNew == nil {
+			firstNew = &verifC10FBatch{pts: []Point{p1}, set: []verifC10FSet{s1}}
+		} else {
+			lastTomb = &verifC10FBatch{pts: []Point{tomb}, set: []verifC10FSet{s0}}
+		}
+	}
+	if len(all.pts) > 1 {
+		out = append(out, all)
+		out = append(out, verifC10FBatch{name: "first new + last tombstone",
+			pts: append(append([]Point{}, lastTomb.pts...), firstNew.pts...),
+			set: append(append([]verifC10FSet{}, lastTomb.set...), firstNew.set...)})
+	}
+	if len(out) == 0 {
+		return nil // no declared field with this tag
+	}
+	// the batches that change nothing come last: the first mismatch of a class then shows a batch with an effect
+	return append(out, verifC10FBatch{name: "empty"},
+		verifC10FBatch{name: "undeclared type", pts: []Point{{Type: "verifC10NoSuchType", Key: "0", Value: 1, Text: "x"}}})
+}
+
+// verifC10FFew: the error sub-contracts (wrong parent, unknown id) use three batches of the alphabet:
+// the first field's new value, the last batch with an effect (the combined one, or the tombstone of
+// the only field) and the empty batch.
+func verifC10FFew(b []verifC10FBatch) []verifC10FBatch {
+	if len(b) == 0 {
+		return nil
+	}
+	return []verifC10FBatch{b[0], b[len(b)-3], b[len(b)-2]}
+}
+
+// verifC10FoldRun evaluates C1-C3 on every configuration of cfgs (sorted by size first).
+func verifC10FoldRun[T any](st *verifC10State, tname string, cfgs []T) {
+	st.types = append(st.types, tname)
+	size := func(c T) int { return len(verifC10FWalk(reflect.ValueOf(c), nil, "", nil)) }
+	sort.SliceStable(cfgs, func(i, j int) bool { return size(cfgs[i]) < size(cfgs[j]) })
+	st.foldTypes = append(st.foldTypes, fmt.Sprintf("%s (%d configurations, 1..%d nodes)", tname, len(cfgs), size(cfgs[len(cfgs)-1])))
+	batchCache := map[string][]verifC10FBatch{}
+	batches := func(t reflect.Type, tag string) []verifC10FBatch {
+		k := t.Name() + "/" + tag
+		if b, ok := batchCache[k]; ok {
+			return b
+		}
+		b := verifC10FBatches(t, tag)
+		batchCache[k] = b
+		st.foldBatches[strings.TrimPrefix(t.Name(), "verifC10")+"/"+tag] = len(b)
+		return b
+	}
+	sampled := false
+
+	for ci := range cfgs {
+		cfg := cfgs[ci]
+		orig := reflect.ValueOf(&cfg).Elem()
+		full := verifC10Full(cfg)
+		short := verifC10Short(cfg)
+		nodes := verifC10FWalk(orig, nil, "", nil)
+		st.foldCfgs++
+		idCount := map[string]int{}
+		pairs := map[[2]string]bool{}
+		for _, nd := range nodes {
+			idCount[nd.id]++
+			pairs[[2]string{nd.id, nd.parent}] = true
+		}
+		top := nodes[0]
+
+		// run evaluates one (sub-contract, target, batch) verifC10FoldReps times
+		run := func(sub, target, looseID string, b verifC10FBatch, edge bool, expected reflect.Value, wantErr, nontrivial bool, call func(dst any) error) bool {
+			ptsStr := verifC10PointsStr(b.pts)
+			if edge {
+				ptsStr = "edge" + ptsStr
+			}
+			if nontrivial {
+				// distinct: (sub-contract, type, target id[/parent], batch); neither the repetitions nor the
+				// configuration around the target are part of the key
+				k := verifC10Key{contract: 'C', typ: tname, a: sha256.Sum256([]byte(sub + "#" + looseID)), b: sha256.Sum256([]byte(ptsStr))}
+				if _, ok := st.distinct[k]; !ok {
+					st.distinct[k] = struct{}{}
+					st.foldDist++
+				}
+				st.foldLoose[tname+"#"+sub+"#"+target+"#"+ptsStr+"#"+full] = struct{}{}
+			}
+			allOK := true
+			for rep := 1; rep <= verifC10FoldReps; rep++ {
+				st.evaluations++
+				st.foldEvals++
+				st.foldSub[sub]++
+				got := verifC10FClone(orig)
+				var err error
+				var pan any
+				func() {
+					defer func() {
+						if r := recover(); r != nil {
+							pan = r
+						}
+					}()
+					err = call(got.Addr().Interface())
+				}()
+				same := reflect.DeepEqual(got.Interface(), expected.Interface())
+				msg := ""
+				switch {
+				case pan != nil:
+					st.panics++
+					msg = fmt.Sprintf("panic: %v", pan)
+				case err != nil && !wantErr:
+					msg = err.Error()
+				case err == nil && wantErr:
+					msg = "no error returned for an id / parent id that does not occur in the configuration"
+					if !same {
+						msg += " (and the configuration was changed)"
+					}
+				case !same && wantErr:
+					msg = "error returned, but the configuration was changed"
+				}
+				if msg != "" || !same {
+					allOK = false
+					st.failC(verifC10Mismatch{Contract: "C:" + sub, Type: tname, A: short,
+						B:      fmt.Sprintf("%s (repetition %d of %d)", target, rep, verifC10FoldReps),
+						Points: ptsStr, Expected: verifC10Short(expected.Interface()), Got: verifC10Short(got.Interface()), Error: msg})
+				}
+			}
+			return allOK
+		}
+
+		// reference: the struct at nd alone, after the batch; checked against the independent reading of the batch
+		reference := func(sub string, nd verifC10FNode, b verifC10FBatch, edge bool) (exp reflect.Value, nontrivial bool) {
+			exp = verifC10FClone(orig)
+			tv := verifC10FResolve(exp, nd.path)
+			alone := verifC10FClone(tv)
+			indep := verifC10FClone(tv)
+			for _, s := range b.set {
+				indep.Field(s.field).Set(s.val.Convert(indep.Field(s.field).Type()))
+			}
+			var err error
+			if edge {
+				err = MergeEdgePoints(nd.id, nd.parent, b.pts, alone.Addr().Interface())
+			} else {
+				err = MergePoints(nd.id, b.pts, alone.Addr().Interface())
+			}
+			if err != nil || !reflect.DeepEqual(alone.Interface(), indep.Interface()) {
+				m := verifC10Mismatch{Contract: "C:" + sub + "-reference(struct alone)", Type: tname, A: verifC10Short(tv.Interface()),
+					B: fmt.Sprintf("id=%q parent=%q", nd.id, nd.parent), Points: verifC10PointsStr(b.pts),
+					Expected: verifC10Short(indep.Interface()), Got: verifC10Short(alone.Interface())}
+				if err != nil {
+					m.Error = err.Error()
+				}
+				st.failC(m)
+			}
+			nontrivial = !reflect.DeepEqual(alone.Interface(), tv.Interface())
+			tv.Set(alone)
+			return exp, nontrivial
+		}
+
+		for _, nd := range nodes {
+			nd := nd
+			tdesc := fmt.Sprintf("id=%q = %s (%s)", nd.id, nd.where, strings.TrimPrefix(nd.typ.Name(), "verifC10"))
+			// C1
+			if idCount[nd.id] > 1 {
+				st.foldShared++
+			} else {
+				st.foldTargets++
+				for _, b := range batches(nd.typ, "point") {
+					b := b
+					exp, nontrivial := reference("C1", nd, b, false)
+					ok := run("C1", tdesc, nd.id, b, false, exp, false, nontrivial, func(dst any) error { return MergePoints(nd.id, b.pts, dst) })
+					if ok && !sampled && nontrivial && len(nd.path) == 4 && len(b.pts) > 1 {
+						sampled = true
+						st.samples = append(st.samples, fmt.Sprintf("C1 %s: cfg=%s MergePoints(%q, %s, &cfg) x%d -> nil, only %s changed (== MergePoints on that struct alone): %s",
+							tname, short, nd.id, verifC10PointsStr(b.pts), verifC10FoldReps, nd.where, verifC10Short(verifC10FResolve(exp, nd.path).Interface())))
+					}
+				}
+			}
+			// C2
+			eb := batches(nd.typ, "edgepoint")
+			if len(eb) == 0 {
+				continue
+			}
+			st.foldETarget++
+			edesc := fmt.Sprintf("id=%q parent=%q = %s (%s)", nd.id, nd.parent, nd.where, strings.TrimPrefix(nd.typ.Name(), "verifC10"))
+			wrong := []string{"no-such-parent", nd.id}
+			for _, o := range nodes {
+				if o.id != nd.parent && o.id != nd.id && !pairs[[2]string{nd.id, o.id}] {
+					wrong = append(wrong, o.id) // another id of the configuration that is not a parent of nd
+					break
+				}
+			}
+			for _, b := range eb {
+				b := b
+				exp, nontrivial := reference("C2", nd, b, true)
+				run("C2", edesc, nd.id+"/"+nd.parent, b, true, exp, false, nontrivial, func(dst any) error { return MergeEdgePoints(nd.id, nd.parent, b.pts, dst) })
+			}
+			for _, b := range verifC10FFew(eb) {
+				b := b
+				_, nontrivial := reference("C2", nd, b, true)
+				for _, wp := range wrong {
+					wp := wp
+					run("C2-wrong-parent", fmt.Sprintf("id=%q parent=%q (the parent of %s is %q)", nd.id, wp, nd.where, nd.parent), nd.id+"/"+wp, b, true,
+						orig, true, nontrivial, func(dst any) error { return MergeEdgePoints(nd.id, wp, b.pts, dst) })
+				}
+			}
+		}
+
+		// C3: ids that do not occur (the parent id of the top struct occurs only as a parent)
+		unknown := []string{"", "no-such-id", top.id + "x"}
+		if idCount[top.parent] == 0 && top.parent != "" {
+			unknown = append(unknown, top.parent)
+		}
+		for _, uid := range unknown {
+			uid := uid
+			for _, b := range verifC10FFew(batches(top.typ, "point")) {
+				b := b
+				_, nontrivial := reference("C3", top, b, false)
+				run("C3", fmt.Sprintf("MergePoints id=%q (not in the configuration)", uid), uid, b, false, orig, true, nontrivial,
+					func(dst any) error { return MergePoints(uid, b.pts, dst) })
+			}
+			for _, par := range []string{"", top.id, top.parent} {
+				par := par
+				for _, b := range verifC10FFew(batches(top.typ, "edgepoint")) {
+					b := b
+					_, nontrivial := reference("C3", top, b, true)
+					run("C3", fmt.Sprintf("MergeEdgePoints id=%q parent=%q (id not in the configuration)", uid, par), uid+"/"+par, b, true, orig, true, nontrivial,
+						func(dst any) error { return MergeEdgePoints(uid, par, b.pts, dst) })
+				}
+			}
+		}
+
+		if verifC10Full(cfg) != full {
+			st.failC(verifC10Mismatch{Contract: "C:inputs-unchanged", Type: tname, A: full[:verifC10Min(len(full), 300)],
+				Expected: "the harness's own copy of the configuration is never written", Got: verifC10Short(cfg)})
+		}
+	}
+}
+
+func verifC10FLeafN(id, parent string, i int) verifC10FLeaf {
+	return verifC10FLeaf{ID: id, Parent: parent, Desc: "leaf " + id + " ü", Value: float64(i) + 0.5, Count: i + 1, On: i%2 == 0,
+		Role: []string{"user", "admin", ""}[i%3], Order: i}
+}
+
+func verifC10FCondN(id, parent string, i int) verifC10FCond {
+	return verifC10FCond{ID: id, Parent: parent, Desc: "cond " + id, CondType: []string{"pointValue", "schedule"}[i%2], MinVal: float64(10 * (i + 1)), Active: i%2 == 1}
+}
+
+func verifC10FActN(id, parent string, i int) verifC10FAct {
+	return verifC10FAct{ID: id, Parent: parent, Desc: "action " + id, Action: []string{"setValue", "notify", "playAudio"}[i%3], Val: float64(i) - 1.5, Disabled: i%2 == 1}
+}
+
+func verifC10Fold(st *verifC10State) {
+	st.foldSub = map[string]int{}
+	st.foldLoose = map[string]struct{}{}
+	st.foldBatches = map[string]int{}
+	maxN := 2 // children per slice
+	if st.thorough {
+		maxN = 3
+	}
+
+	// ---- one child slice
+	{
+		var cfgs []verifC10FOne
+		for n := 0; n <= maxN+1; n++ {
+			c := verifC10FOne{ID: "t1", Parent: "root", Desc: fmt.Sprintf("one/%d", n), Period: 60, Role: "admin"}
+			for i := 0; i < n; i++ {
+				c.Leaves = append(c.Leaves, verifC10FLeafN(fmt.Sprintf("l%d", i+1), c.ID, i))
+			}
+			cfgs = append(cfgs, c)
+		}
+		cfgs = append(cfgs, verifC10FOne{ID: "t1", Parent: "root", Desc: "one/empty non-nil slice", Leaves: []verifC10FLeaf{}})
+		// ids as the store makes them (UUIDs), one id a prefix of another
+		u := "7b1c0d3e-5f6a-4b2c-9d8e-0123456789a"
+		cfgs = append(cfgs, verifC10FOne{ID: u, Parent: "root", Desc: "one/uuid", Leaves: []verifC10FLeaf{
+			verifC10FLeafN(u+"b", u, 0), verifC10FLeafN(u+"bc", u, 1), verifC10FLeafN("ид-ü", u, 2)}})
+		verifC10FoldRun(st, "F.One(1 child slice)", cfgs)
+	}
+
+	// ---- two child slices of different child types
+	{
+		var cfgs []verifC10FTwo
+		for nc := 0; nc <= maxN; nc++ {
+			for na := 0; na <= maxN; na++ {
+				c := verifC10FTwo{ID: "t1", Parent: "root", Desc: fmt.Sprintf("two/%d/%d", nc, na), Active: na%2 == 1}
+				for i := 0; i < nc; i++ {
+					c.Conds = append(c.Conds, verifC10FCondN(fmt.Sprintf("c%d", i+1), c.ID, i))
+				}
+				for i := 0; i < na; i++ {
+					c.Acts = append(c.Acts, verifC10FActN(fmt.Sprintf("a%d", i+1), c.ID, i))
+				}
+				cfgs = append(cfgs, c)
+			}
+		}
+		verifC10FoldRun(st, "F.Two(2 child slices)", cfgs)
+	}
+
+	// ---- three child slices (client.Rule: conditions, actions, actionsInactive)
+	{
+		var cfgs []verifC10FRule3
+		for nc := 0; nc <= maxN; nc++ {
+			for na := 0; na <= maxN; na++ {
+				for ni := 0; ni <= maxN; ni++ {
+					if !st.thorough && (nc == 2 || na == 2 || ni == 2) && !(nc == na && na == ni) && nc+na+ni != 2 {
+						continue // quick: all shapes over 0..1, (2,0,0) (0,2,0) (0,0,2) and (2,2,2)
+					}
+					c := verifC10FRule3{ID: "r1", Parent: "root", Desc: fmt.Sprintf("rule/%d/%d/%d", nc, na, ni), Active: nc%2 == 1, Error: "err"}
+					for i := 0; i < nc; i++ {
+						c.Conds = append(c.Conds, verifC10FCondN(fmt.Sprintf("c%d", i+1), c.ID, i))
+					}
+					for i := 0; i < na; i++ {
+						c.Acts = append(c.Acts, verifC10FActN(fmt.Sprintf("a%d", i+1), c.ID, i))
+					}
+					for i := 0; i < ni; i++ {
+						c.ActsInactive = append(c.ActsInactive, verifC10FActN(fmt.Sprintf("i%d", i+1), c.ID, i+1))
+					}
+					cfgs = append(cfgs, c)
+				}
+			}
+		}
+		verifC10FoldRun(st, "F.Rule3(3 child slices, as client.Rule)", cfgs)
+	}
+
+	// ---- grandchildren: groups (each with members and conditions) next to leaves
+	{
+		shapes := [][2]int{{0, 0}, {1, 0}, {0, 1}, {1, 1}, {2, 1}} // (members, conditions) of a group
+		group := func(gi int, sh [2]int, parent string) verifC10FGroup {
+			g := verifC10FGroup{ID: fmt.Sprintf("g%d", gi+1), Parent: parent, Desc: fmt.Sprintf("group %d", gi+1), Level: float64(gi) + 0.25, Order: gi + 1}
+			for i := 0; i < sh[0]; i++ {
+				g.Members = append(g.Members, verifC10FLeafN(fmt.Sprintf("%sm%d", g.ID, i+1), g.ID, i+gi))
+			}
+			for i := 0; i < sh[1]; i++ {
+				g.Conds = append(g.Conds, verifC10FCondN(fmt.Sprintf("%sc%d", g.ID, i+1), g.ID, i+gi))
+			}
+			return g
+		}
+		mk := func(shs [][2]int, nl int) verifC10FDeep {
+			c := verifC10FDeep{ID: "d1", Parent: "root", Desc: fmt.Sprintf("deep/%v/%d", shs, nl), Role: "user"}
+			for gi, sh := range shs {
+				c.Groups = append(c.Groups, group(gi, sh, c.ID))
+			}
+			for i := 0; i < nl; i++ {
+				c.Leaves = append(c.Leaves, verifC10FLeafN(fmt.Sprintf("l%d", i+1), c.ID, i+1))
+			}
+			return c
+		}
+		var cfgs []verifC10FDeep
+		for nl := 0; nl <= 2; nl++ {
+			cfgs = append(cfgs, mk(nil, nl))
+			if !st.thorough && nl == 1 {
+				continue // quick: 0 and 2 leaves next to the groups
+			}
+			for i, s1 := range shapes {
+				cfgs = append(cfgs, mk([][2]int{s1}, nl))
+				for j, s2 := range shapes {
+					if !st.thorough && j != (i+2)%len(shapes) {
+						continue // quick: 5 of the 25 ordered pairs of group shapes
+					}
+					cfgs = append(cfgs, mk([][2]int{s1, s2}, nl))
+				}
+			}
+		}
+		cfgs = append(cfgs, mk([][2]int{{2, 1}, {0, 0}, {1, 1}}, 1))
+		if st.thorough {
+			cfgs = append(cfgs, mk([][2]int{{1, 1}, {2, 1}, {1, 0}}, 2), mk([][2]int{{0, 1}, {0, 0}, {2, 1}}, 0))
+			three := [][2]int{{0, 0}, {1, 1}, {2, 1}}
+			for _, s1 := range three {
+				for _, s2 := range three {
+					for _, s3 := range three {
+						cfgs = append(cfgs, mk([][2]int{s1, s2, s3}, 1))
+					}
+				}
+			}
+		}
+		// one node with two parents (the same id below g1 and below g2, different edge fields): only
+		// MergeEdgePoints (id + parent) addresses it, MergePoints is not evaluated for that id
+		for _, nl := range []int{0, 1} {
+			c := mk([][2]int{{1, 1}, {1, 0}}, nl)
+			c.Desc += "/shared"
+			s1 := verifC10FLeafN("s1", "g1", 3)
+			s2 := s1
+			s2.Parent, s2.Role, s2.Order = "g2", "viewer", 9
+			c.Groups[0].Members = append(c.Groups[0].Members, s1)
+			c.Groups[1].Members = append([]verifC10FLeaf{s2}, c.Groups[1].Members...)
+			cfgs = append(cfgs, c)
+		}
+		verifC10FoldRun(st, "F.Deep(2 child slices, grandchildren below a child with 2 child slices)", cfgs)
+	}
+}
+
+// ---------------------------------------------------------------------------------------------
 
 func TestVerifC10Roundtrip(t *testing.T) {
 	start := time.Now()
@@ -1171,6 +1840,11 @@ func TestVerifC10Roundtrip(t *testing.T) {
 	// ---- child lists
 	verifC10Children(st)
 
+	// ---- contract C: fold into a descendant
+	foldStart := time.Now()
+	verifC10Fold(st)
+	foldMs := time.Since(foldStart).Milliseconds()
+
 	// ---- coverage of kinds
 	wantKinds := append([]string{}, scalarKinds...)
 	for _, e := range []string{"bool", "int", "float64", "string"} {
@@ -1201,9 +1875,19 @@ func TestVerifC10Roundtrip(t *testing.T) {
 		"A: every value (%d). B: ordered pairs of the values of each type, |domain| = %d pairs, evaluated %d (%.1f%%; quick = all pairs with the zero config on either side + a seeded 15%% of the rest). "+
 		"Edge fields in B: DiffPoints skips edgepoint fields by design, so the edge diff is DiffPoints on a `point:`-tag twin of the struct, applied with MergeEdgePoints. "+
 		"Equality: reflect.DeepEqual with nil == empty for slices/maps (as the library's tests, which check len==0). "+
-		"Non-trivial: A = the config is not the zero config (ids ignored); B = a != b (non-empty diff); distinct = distinct (contract, type, sha256 of the rendered value(s)) keys in a map, nil/empty renderings identified.",
+		"Non-trivial: A = the config is not the zero config (ids ignored); B = a != b (non-empty diff); distinct = distinct (contract, type, sha256 of the rendered value(s)) keys in a map, nil/empty renderings identified. "+
+		"C (fold into a descendant, FindNodeInStruct under MergePoints/MergeEdgePoints): configuration types %s; ids unique per configuration except one node placed below two parents; "+
+		"%d configurations (every child slice holds 0..%d structs, 0..%d in the one-slice type, groups of the grandchild type hold (members, conditions) in {(0,0),(1,0),(0,1),(1,1),(2,1)}; quick = all shapes for one and two slices, for three slices all shapes over 0..1 plus (2,0,0) (0,2,0) (0,0,2) (2,2,2), for the grandchild type 0..2 groups with 5 of the 25 ordered pairs of group shapes next to 0 or 2 leaves; thorough = all shapes, all 25 pairs next to 0..2 leaves, and all 27 triples of groups over 3 shapes), enumerated from the smallest to the largest. "+
+		"C1 MergePoints for EVERY node id occurring in the configuration (top, children, grandchildren: %d (configuration, id) targets; %d skipped because the id occurs below two parents) x the node-point batch alphabet of the target's struct type; "+
+		"C2 MergeEdgePoints(id, its parent) for every node whose struct type has edgepoint fields (%d targets) x its edge-point alphabet, and the same calls with a wrong parent {\"no-such-parent\", the id itself, another id of the configuration that is not its parent}: error + configuration unchanged; "+
+		"C3 ids {\"\", \"no-such-id\", top id + \"x\", the top's parent id (occurs only as a parent)} with the top struct's alphabets, MergeEdgePoints with parent {\"\", top id, top's parent}: error + configuration unchanged. "+
+		"Batch alphabet per struct type and tag: empty batch, one point of an undeclared type, per declared bool/int/float64/string field {new value (key \"0\"), second value (key \"\"; zero for bool/string), tombstone}, all fields at once, first field new + last field tombstone (sizes: %s). "+
+		"Expected value: the configuration with the addressed struct replaced by the result of the same Merge call on a copy of that struct alone (itself checked against an independent field-by-field reading of the batch), everything else strictly reflect.DeepEqual to before. "+
+		"Every C evaluation is repeated %d times on a fresh deep copy (map iteration order in FindNodeInStruct); each repetition counts as an evaluation (%d; %s), distinct counts (sub-contract, type, target id[/parent], batch) once, whatever the configuration around the target, and only if the batch changes the struct it is meant for (%d; %d if the configuration were part of the key).",
 		tier, st.seed, len(st.types), strings.Join(st.types, ", "), st.valuesA, st.pairDomain, st.pairsRun,
-		100*float64(st.pairsRun)/float64(st.pairDomain))
+		100*float64(st.pairsRun)/float64(st.pairDomain),
+		strings.Join(st.foldTypes, "; "), st.foldCfgs, map[bool]int{false: 2, true: 3}[st.thorough], map[bool]int{false: 2, true: 3}[st.thorough]+1, st.foldTargets, st.foldShared, st.foldETarget,
+		verifC10MapStr(st.foldBatches), verifC10FoldReps, st.foldEvals, verifC10MapStr(st.foldSub), st.foldDist, len(st.foldLoose))
 
 	first := st.first
 	if first == nil {
@@ -1214,23 +1898,31 @@ func TestVerifC10Roundtrip(t *testing.T) {
 		samples = []string{}
 	}
 	res := map[string]any{
-		"evaluations":         st.evaluations,
-		"distinct_nontrivial": len(st.distinct),
-		"rule":                rule,
-		"samples":             samples,
-		"exhaustive":          st.thorough,
-		"mismatches":          st.mismatches,
-		"first_mismatches":    first,
-		"field_kinds":         wantKinds,
-		"contracts":           "A: Decode(Encode(x)) == x; B: Merge(Diff(a,b), decode(a)) == b",
-		"panics":              st.panics,
-		"mismatch_classes":    st.classes,
-		"uncovered_kinds":     uncovered,
-		"tier":                tier,
-		"seed":                st.seed,
-		"pairs_domain":        st.pairDomain,
-		"pairs_evaluated":     st.pairsRun,
-		"elapsed_ms":          time.Since(start).Milliseconds(),
+		"evaluations":                      st.evaluations,
+		"distinct_nontrivial":              len(st.distinct),
+		"rule":                             rule,
+		"samples":                          samples,
+		"exhaustive":                       st.thorough,
+		"mismatches":                       st.mismatches,
+		"first_mismatches":                 first,
+		"field_kinds":                      wantKinds,
+		"contracts":                        "A: Decode(Encode(x)) == x; B: Merge(Diff(a,b), decode(a)) == b; C: Merge(Edge)Points(id of a descendant) changes exactly that struct, as on the struct alone; wrong parent / unknown id: error, nothing changed",
+		"fold_evaluations":                 st.foldEvals,
+		"fold_by_subcontract":              st.foldSub,
+		"fold_distinct":                    st.foldDist,
+		"fold_distinct_with_configuration": len(st.foldLoose),
+		"fold_configurations":              st.foldCfgs,
+		"fold_repetitions":                 verifC10FoldReps,
+		"fold_batch_alphabet":              st.foldBatches,
+		"fold_elapsed_ms":                  foldMs,
+		"panics":                           st.panics,
+		"mismatch_classes":                 st.classes,
+		"uncovered_kinds":                  uncovered,
+		"tier":                             tier,
+		"seed":                             st.seed,
+		"pairs_domain":                     st.pairDomain,
+		"pairs_evaluated":                  st.pairsRun,
+		"elapsed_ms":                       time.Since(start).Milliseconds(),
 	}
 	if uncovered == nil {
 		res["uncovered_kinds"] = []string{}
